@@ -1,4 +1,4 @@
-"""Stream `live` (C01, liveness clause): the tie between the theorem `no_stuck_acyclic_partial`
+"""Stream `live` (C01, liveness clause): the tie between the theorem `no_stuck_acyclic`
 (Mistral.Props.C01) and the real engine.
 
 * corpus/C01/*.json: event lists found on the MODEL (theorem counter-witnesses); replayed event by
@@ -10,11 +10,11 @@
   non-join task with several inbound routes) run on the REAL engine under a random schedule with
   pause / resume at random points (harness/core_stream.run_case); the model follows event by event
   (`engine.run`) and must agree after every event; the model also evaluates on every prefix the
-  class predicate of the theorem (`PausedClean`) and its invariants (`enginelive.check`).
+  invariants of the theorem (`enginelive.check`).
   MONITOR (a direct reading of the statement): when the real run is quiescent the execution must not
-  be RUNNING.  A stuck run whose history left the class of the theorem (a re-opened join completed
-  while PAUSED) carries the signature of the known finding; a stuck run INSIDE the class would
-  contradict theorem + tie and is reported with its own signature.
+  be RUNNING (a stuck run would contradict theorem + tie).
+* search_corpus (failing-input search of props/C01.search): the histories on which the real engine got
+  stuck before a fix are replayed on the real engine alone.
 """
 import glob
 import json
@@ -26,14 +26,9 @@ from harness import live_explore as le
 from harness import live_replay as lr
 from harness import wfgen
 
-KNOWN_SIG = {'kind': 'stuck', 'wf_state': 'RUNNING', 'cause': 'reopened-join-completed-while-paused'}
-
-
-def classify(checks):
-    """checks: output of enginelive.check (per prefix: failed invariants, pausedClean)"""
-    if any(not c['pausedClean'] for c in checks):
-        return dict(KNOWN_SIG)
-    return {'kind': 'stuck', 'wf_state': 'RUNNING', 'cause': 'inside-proved-class'}
+# signature of the (fixed) finding "a re-opened join completed while PAUSED is never continued"
+REOPENED_SIG = {'kind': 'stuck', 'wf_state': 'RUNNING', 'cause': 'reopened-join-completed-while-paused'}
+STUCK_SIG = {'kind': 'stuck', 'wf_state': 'RUNNING'}
 
 
 def gen_indirect(rng):
@@ -63,29 +58,53 @@ def gen_indirect(rng):
     return {'name': 'wf', 'type': 'direct', 'tasks': tasks}
 
 
-def run_corpus(ctx):
+def corpus_files():
     from vlib import core
+    return sorted(glob.glob(os.path.join(core.VERIF, 'corpus', 'C01', '*.json')))
+
+
+def _events(c, key='events'):
+    evs = c[key]
+    if evs and isinstance(evs[0], str):
+        evs = lr.parse_events(evs)
+    return evs
+
+
+def run_corpus(ctx):
+    """regressions: a recorded model history is replayed on the real engine (model = real after every event),
+    then the real engine is drained with the model following; the run must reach a final state"""
     drv = ctx.driver()
-    for f in sorted(glob.glob(os.path.join(core.VERIF, 'corpus', 'C01', '*.json'))):
+    for f in corpus_files():
         c = json.load(open(f))
-        evs = c['events']
-        if evs and isinstance(evs[0], str):
-            evs = lr.parse_events(evs)
         ctx.count('live', 'corpus')
-        r = lr.replay(c['prog'], evs, drv=drv)
+        r = lr.replay(c['prog'], _events(c), drv=drv, drain=True)
         ctx.evaluated('live', ['corpus', os.path.basename(f)], nontrivial=True)
         if not r['ok']:
             ctx.disagree('live', {'corpus': os.path.basename(f), 'at': r['diverged_at']}, 'model event list', r['why'])
             continue
         if r['stuck']:
-            chk = drv.call('enginelive.check', {'spec': cs.spec_json(c['prog']), 'events': evs})
             ctx.count('live', 'hit:stuck')
-            ctx.violation('C01 monitor stuck: RUNNING with nothing deliverable after the recorded event list %s: %s' % (
+            ctx.violation('C01 monitor stuck: RUNNING with nothing deliverable after the recorded history %s: %s' % (
                 os.path.basename(f), json.dumps(r['final']['tasks'])[:200]),
-                {'stream': 'live', 'prog': c['prog'], 'events': c['events'], 'final': r['final']}, classify(chk))
-        elif c.get('expect') == 'stuck':
-            # the defect is gone: the model (which still gets stuck) no longer describes the code
-            ctx.disagree('live', {'corpus': os.path.basename(f)}, 'stuck (model)', r['final'])
+                {'stream': 'live', 'prog': c['prog'], 'events': r.get('events', c['events']), 'final': r['final']},
+                dict(c.get('signature') or STUCK_SIG))
+
+
+def search_corpus(ctx):
+    """failing-input search: the histories on which the real engine got stuck before a fix, real engine only"""
+    for f in corpus_files():
+        c = json.load(open(f))
+        if not c.get('stuck_events_before_fix'):
+            continue
+        evs = _events(c, 'stuck_events_before_fix')
+        r = lr.replay(c['prog'], evs, compare=False)
+        ctx.count('live', 'search-corpus')
+        if r['ok'] and r['stuck']:
+            ctx.violation('C01 monitor stuck: the real execution is RUNNING with nothing deliverable after the recorded '
+                          'history %s: %s' % (os.path.basename(f), json.dumps(r['final']['tasks'])[:200]),
+                          {'stream': 'live', 'prog': c['prog'], 'events': c['stuck_events_before_fix'], 'final': r['final'],
+                           'real_only': True},
+                          dict(c.get('signature') or STUCK_SIG))
 
 
 def run_chunk(ctx, n_programs, max_tasks=5):
@@ -155,23 +174,20 @@ def run_chunk(ctx, n_programs, max_tasks=5):
                 break
         if bad:
             continue
+        # the invariants of the liveness theorem hold in the model on every prefix of the real history
         chk = drv.call('enginelive.check', {'spec': spec, 'events': r['events']})
-        clean = all(c['pausedClean'] for c in chk)
-        ctx.count('live', 'class:' + ('proved' if clean else 'reopened-join-while-paused'))
-        if clean:
-            # inside the class of the theorem the invariants hold in the model on every prefix
-            for kk, c in enumerate(chk):
-                if c['failed']:
-                    ctx.disagree('live', {'yaml': r['yaml'], 'events': r['events'][:kk + 1]},
-                                 {'invariants violated in the model': c['failed']}, 'theorem live_inv / no_stuck_acyclic')
-                    break
+        for kk, c in enumerate(chk):
+            if c['failed']:
+                ctx.disagree('live', {'yaml': r['yaml'], 'events': r['events'][:kk + 1]},
+                             {'invariants violated in the model': c['failed']}, 'theorem live_inv / no_stuck_acyclic')
+                break
         final = r['real'][-1]
         if not r['exhausted'] and final['wf'] == 'RUNNING' and not final['pending']:
             ctx.count('live', 'hit:stuck')
             ctx.violation('C01 monitor stuck: the real execution is RUNNING with nothing pending: %s' % (
                 json.dumps(final['tasks'])[:200]),
                 {'stream': 'live', 'prog': prog, 'events': r['events'], 'oracle': table, 'policy': policy,
-                 'seed': seed, 'ops': ops, 'final': final}, classify(chk))
+                 'seed': seed, 'ops': ops, 'final': final}, dict(STUCK_SIG))
         if ctx.rng.random() < 0.01:
             ctx.sample({'stream': 'live', 'yaml': r['yaml'], 'events': len(r['events']), 'final': final['wf']})
 
@@ -181,9 +197,9 @@ def replay(ctx, rep):
     evs = r['events']
     if evs and isinstance(evs[0], str):
         evs = lr.parse_events(evs)
-    out = lr.replay(r['prog'], evs)
+    out = lr.replay(r['prog'], evs, compare=not r.get('real_only'))
     print('replay: model/real agree on every event: %s; real final %s, pending %s, stuck %s' % (
-        out['ok'], out['final']['wf'], out['final']['pending'], out['stuck']))
+        out['ok'] if not r.get('real_only') else 'n/a (real engine only)', out['final']['wf'], out['final']['pending'],
+        out['stuck']))
     if out['stuck']:
-        chk = ctx.driver().call('enginelive.check', {'spec': cs.spec_json(r['prog']), 'events': evs})
-        ctx.violation('C01 monitor stuck (replay)', r, classify(chk))
+        ctx.violation('C01 monitor stuck (replay)', r, dict(STUCK_SIG))
